@@ -159,7 +159,7 @@ int ascon_random_save_seed
     written = (*(storage->write))
         (storage, 0, seed, sizeof(seed), (storage->erase_size != 0));
     ascon_clean(seed, sizeof(seed));
-    return written == ASCON_RANDOM_SAVED_SEED_SIZE;
+    return (written == ASCON_RANDOM_SAVED_SEED_SIZE) ? 0 : -1;
 }
 
 int ascon_random_load_seed
@@ -190,5 +190,5 @@ int ascon_random_load_seed
 
     /* Clean up and exit */
     ascon_clean(seed, sizeof(seed));
-    return read == ASCON_RANDOM_SAVED_SEED_SIZE;
+    return (read == ASCON_RANDOM_SAVED_SEED_SIZE) ? 0 : -1;
 }
